@@ -50,14 +50,15 @@ theorem sp_fresh_step (ex : Nat → Bool) (st : SpState) (t : Tid)
     ∀ u p, ((spStep ex st t).threads u).pc = .spAppend p → p ∉ (spStep ex st t).sysPath := by
   intro u p
   have hu := h u p
-  have hmu := hm u
   have hmt := hm t
+  have hcu : (st.threads u).pc = .spAppend p → st.lock = some u :=
+    fun e => (hm u).1 (by rw [e]; rfl)
+  have hsym : (t = u) = (u = t) := propext eq_comm
   cases hpc : (st.threads t).pc <;> simp only [spStep, hpc]
   all_goals (try split)
   all_goals (try split)
   all_goals (by_cases hut : u = t <;> simp_all [SpPc.inCS])
-  all_goals (try (intro e; simp_all [SpPc.inCS]; done))
-  all_goals (try (intro e; have := (hm u).1 (by rw [e]; rfl); simp_all; done))
+  all_goals (try (intro e; simp_all; done))
 
 theorem sp_nodup_step (ex : Nat → Bool) (st : SpState) (t : Tid)
     (h : ∀ p, (st.threads t).pc = .spAppend p → p ∉ st.sysPath) (hn : st.sysPath.Nodup) :
